@@ -1,16 +1,22 @@
 #!/bin/bash
-# usage: seed_run.sh <seed-id> <property> [extra rv args]
-# Applies /verif/seeded/<seed-id>/patch.diff to /repo, runs the property's check, restores /repo.
+# usage: seed_run.sh <seed-id> <property> [extra rv args, e.g. --only h1,h2]
+# Runs the property's check against a scratch worktree of /repo HEAD with the seeded patch applied and a
+# scratch copy of the harness crate pointing at it. /repo and /verif/kani are not touched, so several
+# seed runs and a clean-tree run can go on at the same time.
 set -u
 SEED=$1; PROP=$2; shift 2
-cd /repo || exit 9
-git diff --quiet || { echo "/repo has uncommitted changes; refusing"; exit 9; }
-git apply /verif/seeded/$SEED/patch.diff || { echo "patch does not apply"; exit 8; }
-trap 'git -C /repo checkout -- . ' EXIT
+ROOT=/tmp/sr/$SEED-$PROP
+rm -rf $ROOT; mkdir -p $ROOT
+git -C /repo worktree prune
+git -C /repo worktree add -q --detach $ROOT/repo HEAD || exit 9
+( cd $ROOT/repo && git apply /verif/seeded/$SEED/patch.diff ) || { echo "seed=$SEED patch does not apply"; git -C /repo worktree remove --force $ROOT/repo; exit 8; }
+rsync -a --exclude target --exclude Cargo.lock /verif/kani/ $ROOT/kani/
+sed -i "s#rubato = { path = \"/repo\" }#rubato = { path = \"$ROOT/repo\" }#" $ROOT/kani/Cargo.toml
 cd /verif
-./rv check $PROP "$@" > /var/tmp/rvh/seed-$SEED-$PROP.log 2>&1
+RV_REPO=$ROOT/repo RV_KANI_CRATE=$ROOT/kani RV_SCRATCH=/var/tmp/rvh-seed-$SEED RV_EVID=$ROOT/evidence ./rv check $PROP "$@" > $ROOT/log 2>&1
 RC=$?
-grep -E "^VIOLATION|^KNOWN-FINDING|^MACHINERY|tier=" /var/tmp/rvh/seed-$SEED-$PROP.log | cut -c1-260
+grep -E "^VIOLATION|^KNOWN-FINDING|^MACHINERY|tier=" $ROOT/log | cut -c1-300
 echo "seed=$SEED property=$PROP exit=$RC"
-cp /verif/evidence/$PROP.json /var/tmp/rvh/seed-$SEED-$PROP.evidence.json 2>/dev/null
+mkdir -p /var/tmp/rvh/seedlogs; cp $ROOT/log /var/tmp/rvh/seedlogs/$SEED-$PROP.log; cp $ROOT/evidence/$PROP.json /var/tmp/rvh/seedlogs/$SEED-$PROP.evidence.json 2>/dev/null
+git -C /repo worktree remove --force $ROOT/repo; rm -rf $ROOT /var/tmp/rvh-seed-$SEED
 exit $RC
